@@ -1625,7 +1625,12 @@ class LinearOperator(object):
                 )
             )
 
-        res = self._expand_batch(batch_shape=shape[:-2])
+        # resolve -1 (keep the size) before handing the batch shape to the per-class `_expand_batch`
+        batch_shape = torch.Size(
+            tuple(new_batch_shape[:num_new_dims])
+            + tuple(old if new == -1 else new for new, old in zip(new_batch_shape[num_new_dims:], self.batch_shape))
+        )
+        res = self._expand_batch(batch_shape=batch_shape)
         return res
 
     def float(
